@@ -42,6 +42,21 @@ CHECKS = {
         note=('Trusted: Coq kernel + vm_compute; hand-written model (attributes reduced to resid/charge_group/tag, meta to '
               'version); add_edge only on existing endpoints; log_entries not modelled; differential tie is sampling.'),
         technique='Coq proof (invariant preserved by every operation, induction over histories; merge refinement to a loop-free spec) + in-Coq correspondence on operation histories'),
+    'C02': dict(
+        category='proof',
+        text=('Coq theorem read_write: for every well-formed molecule the line/token model of write_molecule_itp produces '
+              'lines from which an independent reader (written from the GROMACS directive table, using nothing of the '
+              'writer) recovers exactly the canonical molecule: atoms in stable atomid order numbered 1..N (the reader '
+              'rejects gaps), every interaction with atoms translated by rank, same parameters, right section (impropers '
+              'under dihedrals, virtual_sitesn function type after the first atom) and same #ifdef/#ifndef guard; plus '
+              'permutation theorems (no atom/interaction dropped, duplicated or moved) and the meaning of the written index. '
+              'Tie: the real writer output is tokenised and compared line by line with the model, and the proved-sound '
+              'oracle holds_on (= reader + canon) is evaluated on the real output inside Coq.'),
+        design_ref='DESIGN.md section 5, C02',
+        note=('Trusted: Coq kernel + vm_compute; hand-written model at token level (column padding and decimal printing '
+              'are outside the model; the harness tokeniser and Python str() are trusted); pre/post_section_lines and '
+              'mass-without-charge excluded; arities per GROMACS table.'),
+        technique='Coq proof (writer model composed with an independent reader; induction over sections, groups and lines) + in-Coq correspondence and oracle evaluation on real output'),
 }
 NOT_APPLICABLE = {}
 PENDING_REASON = 'not yet claimed: model and proofs for this property are still being built (see DESIGN.md staging); no check is registered so nothing is asserted'
